@@ -214,14 +214,14 @@ def generate(template_path, repo):
             if is_fn:
                 _emit_fn(g, source(args['file']), args, spec, loops, replaces, proofs, attrs)
             else:
-                _emit_struct(g, source(args['file']), args, replaces)
+                _emit_struct(g, source(args['file']), args, replaces, attrs)
             continue
         g.emit(line)
         i += 1
     return g
 
 
-def _emit_struct(g, src, args, replaces):
+def _emit_struct(g, src, args, replaces, attrs=()):
     kind = args.get('kind', 'struct')
     a, b = src.find_item(kind, args['name'])
     text = src.text[a:b]
@@ -230,6 +230,10 @@ def _emit_struct(g, src, args, replaces):
     for cnt, old, new in replaces:
         text = apply_replace(text, cnt, old, new, g.rewrites, where)
     g.emit('// ---- extracted %s:%d %s %s sha=%s ----' % (args['file'], extract._line_of(src.text, a), kind, args['name'], extract.sha(src.text[a:b])))
+    for at in attrs:
+        if not re.fullmatch(r'#\[verifier::[a-z_]+(\([^\]]*\))?\]', at):
+            raise AnchorLost('%s: only #[verifier::..] attributes may be added, got %r' % (where, at))
+        g.emit(at)
     g.emit(text)
 
 
